@@ -606,6 +606,7 @@ fn check_limit(limit: usize, cx: &Cx, want_sample: bool, rep: &mut Report) {
 
         // ---- factorize, 1 <= n <= N
         let mut st = FactorStats::default();
+        let mut protocol_scripts = 0u64;
         let panics = guarded(1, limit, |n| {
             if min_prime_bad && !chain_terminates(sieve, n, limit) {
                 notes.note("factorize:nonterminating", n, || {
@@ -625,9 +626,25 @@ fn check_limit(limit: usize, cx: &Cx, want_sample: bool, rep: &mut Report) {
                         .set("want", want_factor_json(t, n))
                 });
             }
+            else if n > 1 && (n % 61 == 0 || n + 40 >= limit) {
+                // the same iterator through a random script of Iterator calls (nth, by_ref adaptors, fold-based terminals)
+                let want: Vec<(i32, i32)> = want_factors(t, n).iter().map(|&(p, e)| (p as i32, e as i32)).collect();
+                let mut r = Rng::new(mix(&[0xfac7, n as u64, limit as u64]));
+                protocol_scripts += 1;
+                if let Err(e) = common::iter_protocol(sieve.factorize(n as i32), &want, &mut r, 8) {
+                    notes.note("factorize:iterator_protocol", n, || {
+                        Json::obj()
+                            .set("what", "factorize(n) seen through standard Iterator calls does not behave like the list of its prime powers")
+                            .set("n", n)
+                            .set("script", e.as_str())
+                            .set("want", want_factor_json(t, n))
+                    });
+                }
+            }
         });
         note_panics("factorize", panics, limit, &mut notes, rep);
         rep.count("factorizations", limit as u64);
+        rep.count("factorize_iterator_protocol_scripts", protocol_scripts);
         entries += limit as u64;
         rep.max("max_exponent_seen", st.max_exponent);
         rep.max("max_distinct_prime_factors_seen", st.max_distinct);
